@@ -87,6 +87,7 @@ struct Kind<Array<Elem>> {
 		return a;
 	}
 	static bool ok(const Array<Elem>& h, int oid) { return h.length() == 2 && h[0].ok(oid) && h[1].ok(oid); }
+	static void dup(Array<Elem>& h) { h.dup(); }
 };
 template <>
 struct Kind<Map<int, Elem>> {
@@ -97,6 +98,7 @@ struct Kind<Map<int, Elem>> {
 		return m;
 	}
 	static bool ok(const Map<int, Elem>& h, int oid) { return h.length() == 1 && h.has(7) && h[7].ok(oid); }
+	static void dup(Map<int, Elem>& h) { h.dup(); }
 };
 template <>
 struct Kind<HashMap<int, Elem>> {
@@ -108,22 +110,25 @@ struct Kind<HashMap<int, Elem>> {
 		return m;
 	}
 	static bool ok(const HashMap<int, Elem>& h, int oid) { return h.length() == 2 && h.has(7) && h.get(7, Elem(-2)).ok(oid) && h.has(263); }
+	static void dup(HashMap<int, Elem>& h) { h.dup(); }
 };
 template <>
 struct Kind<Shared<Payload>> {
 	static Shared<Payload> make(int oid) { return Shared<Payload>(new Payload(oid)); }
 	static bool ok(const Shared<Payload>& h, int oid) { return h->ok(oid); }
+	static void dup(Shared<Payload>& h) { h = h.clone(); }
 };
 template <>
 struct Kind<SObj> {
 	static SObj make(int oid) { return SObj(oid); }
 	static bool ok(const SObj& h, int oid) { return h.ok(oid); }
+	static void dup(SObj& h) { h = h.clone(); }
 };
 
 // ---------------------------------------------------------------------------------------------
 // scenario
 
-enum { OP_COPY = 0, OP_DROP = 1, OP_ASSIGN = 2, OP_ASSIGN_TMP = 3, OP_INC = 4, OP_DEC = 5, NOPS_HANDLE = 4 };
+enum { OP_COPY = 0, OP_DROP = 1, OP_ASSIGN = 2, OP_ASSIGN_TMP = 3, OP_INC = 4, OP_DEC = 5, OP_DUP = 6, NOPS_HANDLE = 4 };
 
 struct TOp {
 	int code, a, b;
@@ -197,6 +202,10 @@ struct Worker : public Thread {
 					s.h(a) = s.h(b);
 					s.oid[a] = s.oid[b];
 				}
+				break;
+			case OP_DUP: // detach this handle from the others (dup() / clone()): the object it shared stays alive for them
+				if (s.live[a])
+					Kind<H>::dup(s.h(a));
 				break;
 			case OP_ASSIGN_TMP:
 				if (s.live[a]) {
@@ -424,7 +433,7 @@ static Parsed parse_case(const vf::Case& c)
 		else if (o.name == "op") {
 			int t = (int)(((o.i(0) % 3) + 3) % 3);
 			if (p.sc.ops[t].size() < 6)
-				p.sc.ops[t].push_back(TOp{(int)((o.i(1) % 6 + 6) % 6), (int)(o.i(2) & 1), (int)(o.i(3) & 1)});
+				p.sc.ops[t].push_back(TOp{(int)((o.i(1) % 7 + 7) % 7), (int)(o.i(2) & 1), (int)(o.i(3) & 1)});
 		}
 		else if (o.name == "sched") {
 			for (auto v : o.a)
@@ -535,7 +544,7 @@ static rc::Gen<vf::Case> gen_scenario(int nth, int maxops, bool counter)
 {
 	using namespace rc;
 	auto opg = counter ? gen::map(vf::irange<int>(4, 5), [](int c) { return TOp{c, 0, 0}; })
-	                   : gen::map(gen::tuple(gen::weightedElement<int>({{3, OP_COPY}, {3, OP_DROP}, {4, OP_ASSIGN}, {2, OP_ASSIGN_TMP}}), vf::irange<int>(0, 1), vf::irange<int>(0, 1)),
+	                   : gen::map(gen::tuple(gen::weightedElement<int>({{3, OP_COPY}, {3, OP_DROP}, {4, OP_ASSIGN}, {2, OP_ASSIGN_TMP}, {2, OP_DUP}}), vf::irange<int>(0, 1), vf::irange<int>(0, 1)),
 	                              [](const std::tuple<int, int, int>& t) { return TOp{std::get<0>(t), std::get<1>(t), std::get<2>(t)}; });
 	auto thr = gen::container<std::vector<TOp>>(opg);
 	return gen::map(gen::tuple(counter ? gen::just(5) : vf::irange<int>(0, 4), vf::irange<int>(0, 7), vf::irange<int>(0, 1), gen::container<std::vector<std::vector<TOp>>>((size_t)nth, thr)),
@@ -575,6 +584,8 @@ void vf_search(const vf::Args& a)
 			int l = kind == 2 ? 1 : 2, bnd = kind == 2 && a.quick() ? 3 : -1;
 			cfgs.push_back({make_case(kind, 2, 1, 1, {sub(t1, l), sub(t2, l)}), bnd, 1000000});
 			cfgs.push_back({make_case(kind, 2, 2, 1, {sub(t2, l), sub(t1, l)}), bnd, 1000000});
+			// one thread detaches its handle (dup / clone) while the other drops the only other handle
+			cfgs.push_back({make_case(kind, 2, 0, 1, {{{OP_DUP, 0, 0}}, {{OP_DROP, 0, 0}}}), kind == 2 && a.quick() ? 3 : -1, 1000000});
 			// main drops concurrently with the workers (3 participants): preemption-bounded
 			cfgs.push_back({make_case(kind, 2, 1, 0, {sub(t1, 2), sub(t2, 2)}), 2, 300000});
 			if (!a.quick()) {
